@@ -171,6 +171,13 @@ def trace_run(cfg, ledger=True, max_steps=None, stepper=None):
             init["weather"] = rows
     except Exception:
         pass
+    # the crop envelope the USER configured (catalogue row + keyword overrides): the configured constants are judged against this,
+    # not against the model's live copy of the crop (which a defect may have overwritten)
+    try:
+        uc = dict(sim.crop_params.get(cfg["crop"]["name"], {})); uc.update(cfg["crop"].get("kwargs") or {})
+        init["crop_user"] = {k: float(uc[k]) for k in ("Zmin", "Zmax", "CCx", "HI0", "dHI0", "Tupp", "Tbase") if isinstance(uc.get(k), (int, float))}
+    except Exception:
+        init["crop_user"] = {}
     init["th0"] = np.array(m._init_cond.th, dtype=float)
     init["surf0"] = float(m._init_cond.surface_storage)
     rec = Recorder()
